@@ -78,7 +78,16 @@ def _cancel_loop_hook(ex: paths.Explorer, n, st):
                     other = t.comparators[0]
                     exc_val = ex.pure_value(other, st)
                     kind = 'except'
-    itv = ex.pure_value(n.iter, st)
+    # a snapshot of the list (`list(L)`, `tuple(L)`, `L[:]`, `L.copy()`) walks the same tokens
+    it_node = n.iter
+    if isinstance(it_node, ast.Call) and isinstance(it_node.func, ast.Name) and it_node.func.id in ('list', 'tuple') and len(it_node.args) == 1 and not it_node.keywords:
+        it_node = it_node.args[0]
+    elif isinstance(it_node, ast.Call) and isinstance(it_node.func, ast.Attribute) and it_node.func.attr == 'copy' and not it_node.args:
+        it_node = it_node.func.value
+    elif isinstance(it_node, ast.Subscript) and isinstance(it_node.slice, ast.Slice) and it_node.slice.lower is None and it_node.slice.upper is None \
+            and it_node.slice.step is None:
+        it_node = it_node.value
+    itv = ex.pure_value(it_node, st)
     # does the loop raise when the cancellation *succeeded*?  (`ok = cancel(t)` / `if not ok: raise` is the idiom; the negation is a crash on success)
     raises_on = None
     res_names = set()
@@ -96,8 +105,17 @@ def _cancel_loop_hook(ex: paths.Explorer, n, st):
                 core, neg = (core.operand, neg2) if neg2 else (core, False)
             if core is call or (isinstance(core, ast.Name) and core.id in res_names):
                 raises_on = 'failure' if neg else 'success'
-    ex.emit(st, 'cancel_loop', n, iter=ast.unparse(n.iter), iter_val=itv, method=call.func.attr, guard=kind,
-            except_val=exc_val, recv=ast.unparse(call.func.value), var=var, node=n, raises_on=raises_on)
+    # does the body change the very list the loop walks?  (removing the current element makes the iterator skip the next one)
+    it_txt = ast.unparse(n.iter)
+    mutates_iter = None
+    for x in ast.walk(n):
+        if isinstance(x, ast.Call) and isinstance(x.func, ast.Attribute) and ast.unparse(x.func.value) == it_txt \
+                and x.func.attr in ('remove', 'pop', 'append', 'insert', 'clear', 'extend', 'sort', 'reverse'):
+            mutates_iter = x.func.attr
+        elif isinstance(x, ast.Delete) and any(isinstance(t, ast.Subscript) and ast.unparse(t.value) == it_txt for t in x.targets):
+            mutates_iter = 'del'
+    ex.emit(st, 'cancel_loop', n, iter=ast.unparse(it_node), iter_val=itv, method=call.func.attr, guard=kind,
+            except_val=exc_val, recv=ast.unparse(call.func.value), var=var, node=n, raises_on=raises_on, mutates_iter=mutates_iter)
     for x in ast.walk(n):
         if isinstance(x, ast.Name) and isinstance(x.ctx, ast.Store):
             st.env[x.id] = paths.fresh('loopvar-' + x.id)
